@@ -229,6 +229,33 @@ fn main() {
         .unwrap_or(16);
     let code = if args[1] == "replay" {
         replay(&args[2])
+    } else if args[1] == "fuzz-artifact" {
+        // vcheck fuzz-artifact <ID> <artifact file> <replay out>: turn a libFuzzer crash input into a
+        // replay file of the sub-check that fails on it
+        let bytes = std::fs::read(&args[3]).unwrap_or_default();
+        let stream: Vec<u16> = bytes
+            .chunks(2)
+            .map(|c| (c[0] as u16) << 8 | *c.get(1).unwrap_or(&0) as u16)
+            .collect();
+        let mut code = 2;
+        for s in vcheck::registry::subs_for(&args[2]) {
+            if !vcheck::registry::fuzzable(s.p.dname()) {
+                continue;
+            }
+            if let Some(msg) = s.p.dfuzz_one(&stream, &known) {
+                let mut v = s.p.dcase_json(&stream);
+                v["message"] = serde_json::Value::String(format!("(coverage-guided fuzzer) {}", msg));
+                let _ = std::fs::write(&args[4], serde_json::to_string_pretty(&v).unwrap());
+                println!("VIOLATION property={} replay={}", args[2], args[4]);
+                println!("  check={} : {}", s.p.dname(), msg);
+                code = 1;
+                break;
+            }
+        }
+        if code == 2 {
+            eprintln!("the artifact does not fail any sub-check when run outside the fuzzer");
+        }
+        code
     } else if args[1] == "loop" {
         // vcheck loop <file> <n>: re-run one saved case n times in this process (flake hunting)
         let n: usize = args.get(3).and_then(|s| s.parse().ok()).unwrap_or(1000);
